@@ -204,6 +204,20 @@ theorem includes_pending_bag {Op : Type} (dest : Op → Nat) (item : Op → E) (
   rw [himg]
   exact ⟨rfl, List.Perm.append_left _ (harr.map item), rfl, rfl⟩
 
+/-- set (`insert unless present` handler): after the barrier rank `r` holds exactly its
+previous elements and the pending elements destined to it, without duplicates -/
+theorem includes_pending_set [DecidableEq E] (key : E → K) (lt : K → K → Bool) (dest : E → Nat)
+    (pending arr : List E) (r n : Nat) (c : Local E X) (hc : c.items.Nodup)
+    (harr : arr.Perm (pendingFor dest pending r)) :
+    let img := serializeRank n (afterBarrier (setInsert key lt) c arr)
+    (∀ z, z ∈ img.contents ↔ z ∈ c.items ∨ (z ∈ pending ∧ dest z = r)) ∧ img.contents.Nodup := by
+  intro img
+  refine ⟨?_, nodup_afterBarrier_set key lt c arr hc⟩
+  intro z
+  show z ∈ (afterBarrier (setInsert key lt) c arr).items ↔ _
+  rw [mem_afterBarrier_set, harr.mem_iff]
+  simp [pendingFor]
+
 /-! ## the order of `std::string` keys satisfies the hypotheses used above -/
 
 theorem bytes_order_laws :
